@@ -345,10 +345,12 @@ def c16_runs(tier):
             open(base, "w").write("i am a file\n")
         before = snapshot(work)
         env = dict(os.environ, HOME=home, GOMAXPROCS="2")
-        rc, out, err = vlib.run([kessoku, "llm-setup"] + args, cwd=cwd, env=env, timeout=60)
+        # the process umask must not matter: the property fixes mode 0644 for every file
+        um = ["022", "027", "077", "002"][k % 4]
+        rc, out, err = vlib.run(["sh", "-c", 'umask %s; exec "$@"' % um, "sh", kessoku, "llm-setup"] + args, cwd=cwd, env=env, timeout=60)
         after = snapshot(work)
         m = re.search(r"Skills installed to: (.*)", out)
-        rec = dict(k=k, agent=a["name"], opt=o, prior=pr, rc=rc, stdout=out[-300:], stderr=err[-300:], reported=m.group(1).strip() if m else None,
+        rec = dict(k=k, agent=a["name"], opt=o, prior=pr, umask=um, rc=rc, stdout=out[-300:], stderr=err[-300:], reported=m.group(1).strip() if m else None,
                    expected_dir=os.path.relpath(skill, work), work=work, custom=custom, user=user, home=home, cwd=cwd, before=before, after=after)
         shutil.rmtree(work, ignore_errors=True)
         return rec
